@@ -85,8 +85,12 @@ def drift(beh, subs, seed):
     return real != model
 
 
-def spec_tags(beh):
+def spec_tags(beh, seed=None):
     tags = set(beh["dev"])
+    if seed is not None:      # a function of the comment-text pool entry the renderer uses for this behaviour
+        sd = seed + A.salt(beh)
+        if any(l["cm"]["style"] != "none" and l["cm"]["cid"] and not A.cm_text(l["cm"]["cid"], l["cm"]["dash"], sd).isascii() for l in beh["lines"]):
+            tags.add("nonascii_comment")
     if any(s["k"] == "drop" for s in beh["stmts"]):
         tags.add("drop_table")
     if any(s["k"] == "upsert" for s in beh["stmts"]):
